@@ -144,6 +144,10 @@ def tasks_c11(tier, seed):
     return ts
 
 
+def tasks_c10(tier, seed):
+    return seq("c10", tier, shards=16)
+
+
 def tasks_c13(tier, seed):
     return seq("c13", tier, shards=16) + IX_TASKS(tier)
 
@@ -227,6 +231,8 @@ PLANS = {
             "assumptions": ["index keys are NUL-free", "BadgerDB calls are atomic steps"]},
     "C14": {"tasks": tasks_c13, "level": "model_checking",
             "assumptions": ["same enumeration as C13; the query-handler path over a Service is covered by the c14h check"]},
+    "C10": {"tasks": tasks_c10, "level": "model_checking",
+            "assumptions": ["reference RES client: change sets/deletes keys, add/remove need in-range indexes, create/delete trigger a re-fetch", "mutations go through mockstore (badgerstore shares the OnChange contract checked by C11)"]},
     "C03": {"tasks": tasks_c03, "level": "model_checking",
             "assumptions": ["Shutdown is called from outside callbacks", "envnats models the connection"]},
 }
@@ -260,6 +266,9 @@ MANIFEST_TEXT = {
     "C08": {"engine": "seq", "technique": "bounded-exhaustive enumeration of event-call sequences x apply handlers x listener placements x resource types with a global-log reference model",
             "level": "Every sequence of <=3 (4 thorough) event calls over 13 actions in request handlers and With callbacks, with 4 apply-handler modes, 5 listener placements and 3 resource types; one global log of apply/publish/listener steps is compared with a reference log.",
             "note": "Cross-callback ordering on the connection follows from C02 (per-group order) and program order checked here."},
+    "C10": {"engine": "seq", "technique": "bounded-exhaustive enumeration of before/after value pairs and mutation histories through the real store handler, replayed by a reference RES client cache and compared with a fresh get",
+            "level": "All ordered pairs of collections of length <=4 over three values (14 641 pairs), of richer collections and of models over three keys, plus mutation histories of length <=3 over two ids, for 20 handler configurations (type x transformer x default); each mutation runs through mockstore, OnChange, the store handler's diff and the real Service; the events are applied to the pre-mutation get by a strict reference client (indexes must be in range, no-op changes rejected) and the result must equal a fresh get.",
+            "note": "Quick tier uses the full pair sets for the IDTransformer configuration and reduced sets for the others."},
     "C11": {"engine": E1, "technique": "bounded-exhaustive operation histories against a map model + stateless model checking of 2-3 contending threads with a porcupine linearizability check on every execution",
             "level": "Sequential: every well-formed history up to the depth bound for mockstore and four badgerstore configurations, compared step by step with a Go map and the expected callback list. Concurrent: every interleaving (preemption bound 2, 3 thorough) of three small transaction programs on colliding ids; each execution's call/return history is checked with porcupine against a per-id register model, plus a lock-exclusion monitor, callback thread/count/chain checks and the final content.",
             "note": "BadgerDB internals run uninstrumented; binary-marshalled value types are not exercised (see DESIGN.md)."},
